@@ -312,7 +312,7 @@ def check_wrapper_dataflow(run, ctx, rule='C01-W1'):
         probs = []
         for (sb, st) in sites.get('store', []):
             ks = ex.operand(st['args'][1])
-            if ks != key_get:
+            if _unclone(ks) != _unclone(key_get):
                 probs.append('store key %s differs from lookup key %s' % (show(ks), show(key_get)))
             val = strip_casts(ex.operand(st['args'][2]))
             # value: clone(result) or result; result is the body's value
@@ -322,16 +322,16 @@ def check_wrapper_dataflow(run, ctx, rule='C01-W1'):
             if not _is_body_result(w, root, bb):
                 probs.append('stored value %s is not the result of the body invocation' % show(val))
         for (pb, pt) in sites.get('pred:cache_if', []):
-            a0 = ex.operand(pt['args'][0])
+            a0 = _unclone(ex.operand(pt['args'][0]))
             a1 = strip_casts(ex.operand(pt['args'][1]))
-            if a0 != key_get:
+            if a0 != _unclone(key_get):
                 probs.append('cache_if is given %s instead of the key' % show(a0))
             if not _is_body_result(w, a1, bb):
                 probs.append('cache_if is given %s instead of the result' % show(a1))
         for (pb, pt) in sites.get('pred:invalidate_on', []):
-            a0 = ex.operand(pt['args'][0])
+            a0 = _unclone(ex.operand(pt['args'][0]))
             a1 = strip_casts(ex.operand(pt['args'][1]))
-            if a0 != key_get:
+            if a0 != _unclone(key_get):
                 probs.append('invalidate_on is given %s instead of the key' % show(a0))
             if not _is_cached(a1, gb):
                 probs.append('invalidate_on is given %s instead of the cached value' % show(a1))
@@ -362,14 +362,22 @@ def check_wrapper_dataflow(run, ctx, rule='C01-W1'):
     return n
 
 
-def _is_cached(e, get_block):
+def _unclone(e):
+    """a clone of a value is that value, for the purpose of "which value is this" """
     e = strip_casts(e)
+    while e[0] == 'call' and e[1] == N.CLONE and e[2]:
+        e = strip_casts(e[2][0])
+    return e
+
+
+def _is_cached(e, get_block):
+    e = _unclone(e)
     root, names = field_path(e)
     return root[0] == 'call' and root[3] == get_block and names[:2] == ['as:Some', '0']
 
 
 def _is_body_result(w, e, body_block):
-    e = strip_casts(e)
+    e = _unclone(e)
     if not w.is_async:
         return e[0] == 'call' and e[3] == body_block
     root, names = field_path(e)
